@@ -285,44 +285,20 @@ def obj_id(tname: bytes, body: bytes, hash_len=20) -> bytes:
 
 
 def resolve(pi: PackInfo, external=None):
-    """-> (objects {raw id: (type name, body)}, by_offset {offset: raw id}).  external: {raw id: (tname, body)}"""
+    """-> (objects {raw id: (type name, body)}, by_offset {offset: raw id}).  external: {raw id: (tname, body)} (thin packs)"""
     external = external or {}
-    by_ofs = {e.offset: e for e in pi.entries}
-    done = {}  # offset -> (tname, body)
+    starts = {e.offset for e in pi.entries}
+    done = {}   # offset -> (tname, body)
+    objs = {}   # raw id -> (tname, body)
     ids = {}
-
-    def get(e, depth=0):
-        if e.offset in done:
-            return done[e.offset]
-        if depth > 10000:
-            raise PackFormatError("delta chain too deep / cyclic")
-        if e.type in TYPE_NAMES:
-            r = (TYPE_NAMES[e.type], e.payload)
-        elif e.type == OFS_DELTA:
-            b = by_ofs.get(e.base_ofs)
-            if b is None:
-                raise PackFormatError("ofs-delta base not at an entry start")
-            tn, body = get(b, depth + 1)
-            r = (tn, strict_apply_delta(body, e.payload))
-        else:
-            r = None
-            for cand in pi.entries:  # base by id: need ids of non-delta or resolved entries
-                pass
-            r = ("REF", e)
-        if r[0] != "REF":
-            done[e.offset] = r
-        return r
-
-    # first pass: everything not depending on ref-deltas
     pending = []
     for e in pi.entries:
-        try:
-            r = get(e)
-        except RecursionError:
-            raise PackFormatError("delta chain too deep")
-        if r[0] == "REF":
+        if e.type in TYPE_NAMES:
+            done[e.offset] = (TYPE_NAMES[e.type], e.payload)
+        else:
+            if e.type == OFS_DELTA and e.base_ofs not in starts:
+                raise PackFormatError("ofs-delta base not at an entry start")
             pending.append(e)
-    objs = {}
     for ofs, (tn, body) in done.items():
         oid = obj_id(tn, body, pi.hash_len)
         objs[oid] = (tn, body)
@@ -330,14 +306,14 @@ def resolve(pi: PackInfo, external=None):
     progress = True
     while pending and progress:
         progress = False
-        for e in list(pending):
-            base = None
-            if e.type == REF_DELTA:
-                base = objs.get(e.base_ref) or external.get(e.base_ref)
+        rest = []
+        for e in pending:
+            if e.type == OFS_DELTA:
+                base = done.get(e.base_ofs)
             else:
-                if e.base_ofs in done:
-                    base = done[e.base_ofs]
+                base = objs.get(e.base_ref) or external.get(e.base_ref)
             if base is None:
+                rest.append(e)
                 continue
             tn, body = base
             r = (tn, strict_apply_delta(body, e.payload))
@@ -345,10 +321,10 @@ def resolve(pi: PackInfo, external=None):
             oid = obj_id(r[0], r[1], pi.hash_len)
             objs[oid] = r
             ids[e.offset] = oid
-            pending.remove(e)
             progress = True
+        pending = rest
     if pending:
-        raise PackFormatError("unresolvable deltas: %d" % len(pending))
+        raise PackFormatError("unresolvable deltas: %d (missing or cyclic bases)" % len(pending))
     return objs, ids
 
 
